@@ -3,7 +3,8 @@
 
 A *history* is a base build program followed by <= 5 (quick) / <= 6 (thorough) steps that interleave MUTATIONS
 (add operation, add sub-circuit, add into a nested sub-circuit, apply_modifiers, flatten, DurationRegistry.
-set_registry_at, enter / leave registry_duration.temporary_override_get_registry_at) with OBSERVATIONS (operations,
+set_registry_at, enter / leave registry_duration.temporary_override_get_registry_at -- left normally or by an exception
+that the program catches outside of the block, also nested, also with a drawing that raises inside) with OBSERVATIONS (operations,
 times of the listed operations, times of held references, duration, get_acquisition_indices, plot_circuit compact
 and non-compact, to_stim, copy of the structure).  After the history a fixed FINAL REPORT is read (listing, times,
 duration, acquisition indices, stim text, a copy's reports, then apply_modifiers and the unrolled version's reports).
@@ -29,6 +30,9 @@ the failure key names the witness CLASS:
         (never the case on the unchanged code for plot_circuit, which clears the memos)
   C03:times(start-fits-the-previous-own-duration):stale-memo:...   the operation's own duration changed (the memo is keyed on it)
   C03:<times|duration>:differs-with-fresh-memos:after=<last mutation>   wrong although both memos were cleared right before the read
+  C03:override:not-restored-after-exception:<user-override | nested-user-override | plot_circuit-compact-override | ...>
+  C03:override:not-restored:<which>      after an override block was left (by an exception the program catches / normally), the function
+        installed on GlobalDurationRegistry is not the one in force before the block
   C03:<group>:changes-without-mutation:[<queries in between>]           same query, no mutation in between, different answers
   C03:<group>:depends-on-earlier-queries:<queries>><last mutation>      final report differs from the mutations-only replay
         (<queries>: "time-or-listing-query" = queries that read times, i.e. fill the memo, or that handed links down; others by name)
@@ -64,12 +68,26 @@ OBS_KINDS = ["operations", "times", "held_times", "duration", "acq", "plot", "pl
 # names used in failure keys
 MUT_NAME = {"add": "add_operation", "nest_sub": "add_sub_circuit", "add_to_sub": "add_into_nested_sub_circuit",
             "apply_modifiers": "apply_modifiers", "flatten": "flatten", "set_reg": "set_registry_at",
-            "enter": "override_enter", "leave": "override_leave"}
+            "enter": "override_enter", "leave": "override_leave", "override_raise": "override_left_by_exception"}
 # observations that merely read (and thereby may fill the memo) are one class in the keys of the oracle check; the
 # listing (it hands relation links down, a de-facto mutator) and compact plotting (own invalidation) keep their names
 OBS_NORMAL = {"operations": "operations", "plot": "plot_circuit"}
 READ_NAME = {"plot": "plot_circuit", "plot_nc": "plot_circuit(non-compact)", "acq": "get_acquisition_indices", "stim": "to_stim",
-             "listed_times": "times-of-listed-operations", "held_times": "times-of-held-references"}
+             "listed_times": "times-of-listed-operations", "held_times": "times-of-held-references",
+             "plot_bad": "plot_circuit(unknown-channel)", "plot_nc_bad": "plot_circuit(non-compact,unknown-channel)"}
+UNKNOWN_CHANNEL = 97
+
+
+def registry_fn():
+    """the function object installed as GlobalDurationRegistry.get_registry_at right now (what an override replaces and must put back)"""
+    return base.L().rd.GlobalDurationRegistry.__dict__["get_registry_at"]
+
+
+_ORIG_FN = [None]
+
+
+class _LeftByException(Exception):
+    """raised inside an override block by the harness and caught outside of it"""
 
 
 # ------------------------------------------------------------------------------------------------
@@ -188,6 +206,8 @@ def span_definition():
     (fresh memos; a barrier JOINED_START to a longer first operation is neither first-level nor the latest-ending)."""
     if _SPAN[0] is None:
         lib = base.L()
+        if _ORIG_FN[0] is None:
+            _ORIG_FN[0] = registry_fn()      # before any override of this process
         common.clear_caches()
         with warnings.catch_warnings():
             warnings.simplefilter("ignore")
@@ -247,6 +267,8 @@ class World:
         self.keep = []         # keeps every object alive (ids stay unique within a run)
         self.last_listing = {}  # target -> (ops, comps, top) of the latest operations query
         self.seen_dur = {}     # id(operation) -> duration it reported at the previous time read
+        self.expected_fn = None
+        self.mid_bad = None
         self.diag_sid = None   # diagnosis replays only: clear the caches right before the reads of this observation
         self.diag = False
         self.file_table = base.table_of("file")
@@ -310,12 +332,72 @@ class World:
     def table(self):
         return dict(GLOBALS[self.stack[-1][0]]) if self.stack else dict(self.file_table)
 
+    def restore_check(self, st, before, raised):
+        """after a step: is the function installed on GlobalDurationRegistry the one that has to be in force?  -> None | detail"""
+        now = registry_fn()
+        m = st.get("m")
+        if m == "enter":
+            return None
+        expected = self.expected_fn if m == "leave" else before
+        mid = self.mid_bad if m == "override_raise" else None
+        if now is expected and not mid:
+            return None
+        if m == "leave":
+            which, exc = ("nested-user-override" if self.stack else "user-override"), st.get("by") == "exception"
+        elif m == "override_raise":
+            which, exc = ("nested-user-override" if (st.get("inner") or self.stack) else "user-override"), True
+            if st.get("how") == "plot_unknown_channel" and st.get("compact") and now is not expected:
+                which += "-around-plot_circuit"
+        elif st.get("o") in ("plot", "plot_bad"):
+            which, exc = "plot_circuit-compact-override", raised
+        else:
+            which, exc = "changed-by-" + (step_name(st, False) or str(m)), raised
+        return {"kind": "not-restored-after-exception" if exc else "not-restored", "which": which,
+                "installed": "the function of the block that was left" if now is not _ORIG_FN[0] else "the process' original",
+                "required": "the function in force before the block" + (" (the process' original)" if expected is _ORIG_FN[0] else " (the enclosing override)")}
+
     def evaluator(self):
         return Ev(self.table(), dict(self.regmodel))
 
+    def _tab(self, g):
+        return {getattr(self.lib.rd.GlobalRegistryKey, k): v for k, v in GLOBALS[g].items()}
+
+    def _override_raise(self, st):
+        """a real `with temporary_override_get_registry_at(...)` block (optionally a second one nested in it) that is left by an exception
+        which the program catches outside; afterwards the duration settings in force before the block must be back"""
+        over = self.lib.rd.temporary_override_get_registry_at
+        how, inner = st.get("how", "raise"), st.get("inner")
+
+        def body():
+            if how == "plot_unknown_channel":
+                try:
+                    self.lib.dc.plot_circuit(self.circ, channel_order=[UNKNOWN_CHANNEL], compact_visualization=bool(st.get("compact")))
+                finally:
+                    self.lib.plt.close("all")
+            raise _LeftByException("raised inside the override block")
+        self.mid_bad = None
+        try:
+            with over(self._tab(st["G"])):
+                outer_fn = registry_fn()
+                if inner and how == "inner_caught":
+                    try:
+                        with over(self._tab(inner)):
+                            raise _LeftByException("raised inside the inner override block")
+                    except _LeftByException:
+                        pass
+                    if registry_fn() is not outer_fn:
+                        self.mid_bad = "nested-user-override"
+                elif inner:
+                    with over(self._tab(inner)):
+                        body()
+                else:
+                    body()
+        except Exception:  # the program survives the exception (ours, or the drawing's ValueError for the unknown channel)
+            pass
+
     def unwind(self):
         while self.stack:
-            _, cm = self.stack.pop()
+            _, cm, _prev = self.stack.pop()
             try:
                 cm.__exit__(None, None, None)
             except Exception:  # noqa
@@ -355,14 +437,29 @@ class World:
             self.regmodel[st["key"]] = float(st["value"])
         elif m == "enter":
             tab = {getattr(lib.rd.GlobalRegistryKey, k): v for k, v in GLOBALS[st["G"]].items()}
+            prev = registry_fn()
             cm = lib.rd.temporary_override_get_registry_at(tab)
             cm.__enter__()
-            self.stack.append((st["G"], cm))
+            self.stack.append((st["G"], cm, prev))
         elif m == "leave":
             if not self.stack:
                 raise Invalid("leave without enter")
-            _, cm = self.stack.pop()
-            cm.__exit__(None, None, None)
+            _, cm, prev = self.stack.pop()
+            self.expected_fn = prev
+            if st.get("by") == "exception":
+                # exactly what the `with` statement does when the block raises: the exception is thrown into the context manager
+                # (which must restore and let it pass); the program catches it outside of the block and goes on
+                e = _LeftByException("raised inside the override block")
+                try:
+                    raise e
+                except _LeftByException:
+                    swallowed = cm.__exit__(type(e), e, e.__traceback__)
+                if swallowed:
+                    raise Crash("the override swallowed the exception")
+            else:
+                cm.__exit__(None, None, None)
+        elif m == "override_raise":
+            self._override_raise(st)
         else:
             raise ValueError(m)
 
@@ -548,6 +645,21 @@ class World:
         self._plot(circ, False)
         val["plot"] = "drawn"
 
+    def _obs_plot_bad(self, circ, val, bad):
+        """compact drawing with a channel the circuit does not have: raises inside plot_circuit's own duration override"""
+        try:
+            self.lib.dc.plot_circuit(circ, channel_order=[UNKNOWN_CHANNEL], compact_visualization=True)
+        finally:
+            self.lib.plt.close("all")
+        val["plot"] = "drawn"
+
+    def _obs_plot_nc_bad(self, circ, val, bad):
+        try:
+            self.lib.dc.plot_circuit(circ, channel_order=[UNKNOWN_CHANNEL], compact_visualization=False)
+        finally:
+            self.lib.plt.close("all")
+        val["plot"] = "drawn"
+
     def _obs_stim(self, circ, val, bad):
         from qce_circuit.addon_stim import to_stim
         val["to_stim"] = str(to_stim(circ))
@@ -575,6 +687,7 @@ def run(program, steps, skip_history_obs=False, clear_before=None, fresh_probe=F
     The caches are cleared ONCE, before the first step (fresh state), never inside.
     clear_before: sid of one observation before which the caches are cleared (diagnosis replays only)."""
     lib = base.L()
+    span_definition()
     common.clear_caches()
     rec = {}
     w = None
@@ -586,18 +699,25 @@ def run(program, steps, skip_history_obs=False, clear_before=None, fresh_probe=F
             except Exception as e:  # noqa
                 raise Crash(f"base program cannot be built: {type(e).__name__}")
             for st in steps:
+                before = registry_fn()
                 if "m" in st:
                     try:
                         w.mutate(st)
-                    except Invalid:
+                    except (Invalid, Crash):
                         raise
                     except Exception as e:  # noqa
                         raise Crash(f"mutation {st['m']} raised {type(e).__name__}")
+                    nr = w.restore_check(st, before, False)
+                    if nr:
+                        rec[st["sid"]] = ({}, {"override": nr})
                 else:
                     if skip_history_obs and not st.get("final"):
                         continue
                     w.diag_sid = clear_before
                     rec[st["sid"]] = w.observe(st)
+                    nr = w.restore_check(st, before, "raises" in rec[st["sid"]][0])
+                    if nr:
+                        rec[st["sid"]][1]["override"] = nr
             if fresh_probe:
                 # after the run: with fresh memos the library's own report must agree with the evaluator
                 common.clear_caches()
@@ -607,6 +727,9 @@ def run(program, steps, skip_history_obs=False, clear_before=None, fresh_probe=F
     finally:
         if w is not None:
             w.unwind()
+        if _ORIG_FN[0] is not None and registry_fn() is not _ORIG_FN[0]:
+            # harness hygiene only (after all checks of this run): an override the library left installed must not leak into the next run
+            lib.rd.GlobalDurationRegistry.get_registry_at = _ORIG_FN[0]
         lib.plt.close("all")
         common.clear_caches()
     return rec
@@ -620,7 +743,7 @@ def is_time_component(c):
 
 
 def primary_fields(bad):
-    return list(bad)
+    return [f for f in bad if f != "override"]
 
 
 def repeat_pairs(steps):
@@ -684,7 +807,11 @@ def analyse(program, steps, recA, recB):
                 out.append({"check": "oracle", "field": f, "sids": [st["sid"]]})
             elif st["sid"] == LAST_TIMES and not (FIRST_TIMES in recA and f in recA[FIRST_TIMES][1]):
                 out.append({"check": "oracle", "field": f, "sids": [st["sid"]]})
-    any_oracle_A = {st["sid"] for st in steps if st["sid"] in recA and recA[st["sid"]][1]}
+    for st in steps:      # duration settings not put back (first such step)
+        if st["sid"] in recA and "override" in recA[st["sid"]][1]:
+            out.append({"check": "restore", "field": "override", "sids": [st["sid"]]})
+            break
+    any_oracle_A = {st["sid"] for st in steps if st["sid"] in recA and primary_fields(recA[st["sid"]][1])}
     # repeat: the first pair that differs, its most basic differing group
     done = False
     for i, j in repeat_pairs(steps):
@@ -747,7 +874,7 @@ def holds(program, steps, finding, budget):
     chk, f, sids = finding["check"], finding["field"], finding["sids"]
     if any(s not in recA for s in sids):
         return False
-    if chk == "oracle":
+    if chk in ("oracle", "restore"):
         return f in recA[sids[0]][1]
     if chk == "repeat":
         order = [st["sid"] for st in steps]
@@ -861,6 +988,14 @@ def oracle_cause(before, rec):
             filled = True
             flag = queried
             plot_after = False
+        elif st["m"] == "override_raise":
+            # = enter, (a drawing attempt inside the block = a query), leave: the same classes as the separate steps
+            if st.get("how") == "plot_unknown_channel":
+                filled = queried = True
+            if filled:
+                tokens.append(MUT_NAME["leave"])
+                flag = queried
+                plot_after = False
         elif filled:
             tokens.append(CAUSE_NAME.get(st["m"], MUT_NAME[st["m"]]))
             flag = queried
@@ -918,6 +1053,9 @@ def classify(program, steps, finding, budget):
             kind = "differs-with-fresh-memos"
             cause = ("after=" + muts[-1]) if muts else ("after-query=" + qs[-1]) if qs else "plain-build-and-read"
         key = f"{PROP}:{f}:{kind}:{cause}"
+    elif chk == "restore":
+        d = rec0[sids[0]][1]["override"]
+        key = f"{PROP}:override:{d['kind']}:{d['which']}"
     elif chk == "repeat":
         i, j = order.index(sids[0]), order.index(sids[1])
         names = [n for n in (nm(st) for st in smin[i + 1:j]) if n]       # what precedes the first of the two reads is witness, not class
@@ -947,6 +1085,11 @@ _FINAL_CACHE = {}
 def detail_of(program, smin, finding, budget, recA):
     """(observed, required) of the finding on the minimal step list"""
     chk, f, sids = finding["check"], finding["field"], finding["sids"]
+    if chk == "restore":
+        d = dict(recA[sids[0]][1]["override"])
+        req = d.pop("required")
+        d["step"] = step_name([st for st in smin if st["sid"] == sids[0]][0], False)
+        return d, req
     if chk == "oracle":
         d = dict(recA[sids[0]][1].get(f, {}))
         req = d.pop("required", None)
@@ -968,9 +1111,13 @@ CLAUSE = {
               "duration settings (a time reported after a change reflects the change)",
     "repeat": "the same query asked twice without a mutation in between gives the same answer",
     "replay": "the final report equals the final report of the same mutations replayed without the intermediate observations",
+    "restore": "once an override block (the user's or plot_circuit's own) has been left -- normally or by an exception the program catches "
+               "-- the duration settings in force before it are back: GlobalDurationRegistry.get_registry_at is the function installed before "
+               "the block (so that times / durations reported afterwards reflect the change)",
 }
 FUNCTION = {"oracle": "RelationLink.get_start_time / MultiRelationLink.get_start_time (lru_cache)", "repeat": "observers (operations, duration, ...)",
-            "replay": "observers (operations, copy, plot_circuit, to_stim, ...)"}
+            "replay": "observers (operations, copy, plot_circuit, to_stim, ...)",
+            "restore": "registry_duration.temporary_override_get_registry_at"}
 
 
 # ------------------------------------------------------------------------------------------------
@@ -983,7 +1130,7 @@ def witness_size(w):
 
 class Stats:
     def __init__(self):
-        self.n = {"oracle": 0, "repeat": 0, "replay": 0}
+        self.n = {"oracle": 0, "repeat": 0, "replay": 0, "restore": 0}
         self.histories = 0
         self.runs = 0
         self.replays = 0
@@ -1029,6 +1176,7 @@ class Stats:
 
 
 def count_evaluations(stats, steps, recA, recB):
+    stats.n["restore"] += sum(1 for st in steps if st.get("m") != "enter" and (("m" in st) or st["sid"] in recA))
     for st in steps:
         if is_obs(st) and st["sid"] in recA:
             v = recA[st["sid"]][0]
@@ -1256,7 +1404,7 @@ SUB_ITEMS = [lambda r: sub([op("Barrier", [0, 1]), op("Rx180", 0), op("Dispersiv
              lambda r: sub([op("Wait", 1, d=0.0), op("Hadamard", 1), op("Wait", 0, d=5.0, rel=[1, "E"])], r.choice([1, 2]))]
 
 
-OBS_WEIGHTED = [k for k in OBS_KINDS for _ in range(1 if k.startswith("plot") else 3)]   # drawings are ~50x as expensive as the rest
+OBS_WEIGHTED = [k for k in OBS_KINDS for _ in range(1 if k.startswith("plot") else 3)] + ["plot_bad", "plot_nc_bad"]   # drawings are ~50x as expensive as the rest
 
 
 def random_history(rng, program, maxlen):
@@ -1272,7 +1420,7 @@ def random_history(rng, program, maxlen):
             count += 1
             continue
         m = rng.choice(["add", "add", "add_sub", "add_sub", "apply_modifiers", "apply_modifiers", "flatten", "set_reg", "set_reg", "set_reg",
-                        "enter", "enter", "leave", "add_to_sub"])
+                        "enter", "enter", "leave", "leave", "add_to_sub", "override_raise"])
         if m == "leave" and depth == 0:
             m = "enter"
         if m == "add_to_sub" and not subs:
@@ -1299,8 +1447,16 @@ def random_history(rng, program, maxlen):
             seq.append(M("enter", G=rng.choice(["A", "B"])))
             depth += 1
         elif m == "leave":
-            seq.append(M("leave"))
+            seq.append(M("leave", by="exception") if rng.random() < 0.5 else M("leave"))
             depth -= 1
+        elif m == "override_raise":
+            st = M("override_raise", G=rng.choice(["A", "B"]), how=rng.choice(["raise", "plot_unknown_channel", "raise"]))
+            if st["how"] == "plot_unknown_channel":
+                st["compact"] = rng.random() < 0.5
+            elif rng.random() < 0.4:
+                st["inner"] = "B" if st["G"] == "A" else "A"
+                st["how"] = rng.choice(["raise", "inner_caught"])
+            seq.append(st)
         else:
             seq.append(M(m))
         count += 1
@@ -1374,6 +1530,20 @@ TEMPLATES = [
     [O("duration"), M("flatten"), O("duration")],
     [M("apply_modifiers"), M("set_reg", key="a", value=0.5)],
     [M("apply_modifiers"), O("acq"), M("flatten")],
+    # override blocks left by an exception the program catches (the user's, nested ones, plot_circuit's own compact override)
+    [M("enter", G="A"), M("leave", by="exception")],
+    [M("enter", G="A"), O("times"), M("leave", by="exception"), O("times")],
+    [M("enter", G="B"), O("plot_nc_bad"), M("leave", by="exception"), O("duration")],
+    [M("enter", G="A"), M("enter", G="B"), M("leave", by="exception"), O("held_times"), M("leave", by="exception")],
+    [M("enter", G="A"), M("enter", G="B"), M("leave", by="exception"), M("leave")],
+    [O("plot_bad")],
+    [M("enter", G="A"), O("plot_bad"), O("times")],
+    [M("override_raise", G="A", how="raise")],
+    [M("override_raise", G="B", how="plot_unknown_channel", compact=False), O("times")],
+    [M("override_raise", G="A", how="plot_unknown_channel", compact=True)],
+    [M("override_raise", G="A", inner="B", how="raise"), O("duration")],
+    [M("override_raise", G="A", inner="B", how="inner_caught")],
+    [M("enter", G="A"), M("override_raise", G="B", how="raise"), O("times"), M("leave")],
     [O("acq"), M("add", item=op("DispersiveMeasure", 0), uid=None), O("acq")],
     [O("stim"), M("add", item=op("Rx180", 1), uid=None), O("stim")],
     [M("apply_modifiers")],
@@ -1546,7 +1716,9 @@ def main(argv=None):
     maxlen = 6 if args.tier == "thorough" else 5
     res.rule = ("histories = base build program + <= %d steps interleaving mutations {add operation (relation none / FOLLOWED_BY / JOINED_START / JOINED_END to an "
                 "earlier item), add sub-circuit (make, optionally observe it, nest), add into a nested sub-circuit, apply_modifiers, flatten, "
-                "DurationRegistry.set_registry_at, enter / leave temporary_override_get_registry_at with tables A %s / B %s} with observations {operations, "
+                "DurationRegistry.set_registry_at, enter / leave temporary_override_get_registry_at with tables A %s / B %s (left normally or by an exception "
+                "caught outside the block; self-contained `with` blocks left by a plain raise or by plot_circuit raising for an unknown channel, also "
+                "nested)} with observations {compact / non-compact plot_circuit with an unknown channel (raises), operations, "
                 "start/end/duration of the listed operations, of held references, circuit duration, get_acquisition_indices, plot_circuit compact / non-compact "
                 "(Agg), to_stim, copy of the structure}; then the fixed final report [operations, times, held times, duration, acquisition indices, to_stim, copy "
                 "(+ its reports), apply_modifiers, operations, times]. Each history runs in a fresh state (fresh circuit and registry, both lru_caches cleared "
@@ -1571,6 +1743,15 @@ def main(argv=None):
                      "(listing, relations, composites, times, duration, acquisition indices, stim text, copy's reports, unrolled version's reports) is equal "
                      "with and without the history's observations", "bound": bound + " (per compared component)", "evaluations": n["replay"]},
     ]
+    res.stand_ins.append(
+        {"function": "registry_duration.temporary_override_get_registry_at (user blocks, nested blocks, plot_circuit's own compact override)",
+         "contract": "clause 'a time reported after a duration setting changed reflects the change', for LEAVING an override: after every step "
+                     "(override left normally; left by an exception thrown into the context manager / raised inside a real `with` block and caught "
+                     "outside, also nested, also by plot_circuit(channel_order=[unknown]) raising ValueError inside the block; compact plot_circuit "
+                     "raising inside its own override; every other query and mutation) GlobalDurationRegistry.get_registry_at is the function object "
+                     "that was installed before the block / step; the times and durations reported afterwards are judged by the oracle check under "
+                     "the harness' own model, in which the left override is no longer in force",
+         "bound": bound + " (per step)", "evaluations": n["restore"]})
     pr = total.probe
     res.probes = [
         {"assumption": f"with fresh memos (caches cleared after the run) the library's report equals the own evaluator: {pr['fresh_checked']} end states, "
